@@ -525,7 +525,7 @@ func (x *Exec) callFunc(st *State, fr *frame, fn *ssa.Function, bindings []Val, 
 		e.usedExterns[name] = true
 		return h(x, st, fr, c, args, pos)
 	}
-	if ct := e.contracts[name]; ct != nil && !ct.Inline && fn != x.root && (len(ct.Ensures)+len(ct.Requires) > 0 || ct.Trusted) {
+	if ct := e.contracts[name]; ct != nil && !ct.Inline && (fn != x.root || x.onStack(fn) || x.inlineDepth == 0) && (len(ct.Ensures)+len(ct.Requires) > 0 || ct.Trusted) {
 		return x.applyContract(st, fr, ct, fn.Signature, fn, args, pos, name)
 	}
 	if fn.Blocks != nil && (e.analysed(fn) || e.inlineExtern[name]) {
@@ -903,10 +903,11 @@ func (x *Exec) doAppend(st *State, fr *frame, c *ssa.CallCommon, args []Val, pos
 	rb, ro := "(s_base "+r+")", "(s_off "+r+")"
 	// other backing arrays untouched
 	st.assume("(forall ((b Int)) (! (=> (not (= b " + rb + ")) (= (select " + h2 + " b) (select " + h + " b))) :pattern ((select " + h2 + " b))))")
-	// prefix preserved
-	st.assume("(forall ((i Int)) (! (=> (and (<= 0 i) (< i (s_len " + s.T + "))) (= (select (select " + h2 + " " + rb + ") (+ " + ro + " i)) (select (select " + h + " (s_base " + s.T + ")) (+ (s_off " + s.T + ") i)))) :pattern ((select (select " + h2 + " " + rb + ") (+ " + ro + " i)))))")
+	// prefix preserved / appended part copied (absolute index k so that any index term matches the pattern)
+	slen0 := "(s_len " + s.T + ")"
+	st.assume("(forall ((k Int)) (! (=> (and (<= " + ro + " k) (< k (+ " + ro + " " + slen0 + "))) (= (select (select " + h2 + " " + rb + ") k) (select (select " + h + " (s_base " + s.T + ")) (+ (s_off " + s.T + ") (- k " + ro + "))))) :pattern ((select (select " + h2 + " " + rb + ") k))))")
 	if !bytesFromStr {
-		st.assume("(forall ((i Int)) (! (=> (and (<= 0 i) (< i " + tlen + ")) (= (select (select " + h2 + " " + rb + ") (+ " + ro + " (s_len " + s.T + ") i)) (select (select " + h + " " + tbase + ") (+ " + toff + " i)))) :pattern ((select (select " + h2 + " " + rb + ") (+ " + ro + " (s_len " + s.T + ") i)))))")
+		st.assume("(forall ((k Int)) (! (=> (and (<= (+ " + ro + " " + slen0 + ") k) (< k (+ " + ro + " " + n + "))) (= (select (select " + h2 + " " + rb + ") k) (select (select " + h + " " + tbase + ") (+ " + toff + " (- k (+ " + ro + " " + slen0 + ")))))) :pattern ((select (select " + h2 + " " + rb + ") k))))")
 	}
 	// in place: cells outside the appended range keep their value
 	st.assume(implies(inPlace, "(forall ((k Int)) (! (=> (or (< k (+ "+ro+" (s_len "+s.T+"))) (>= k (+ "+ro+" "+n+"))) (= (select (select "+h2+" "+rb+") k) (select (select "+h+" "+rb+") k))) :pattern ((select (select "+h2+" "+rb+") k))))"))
@@ -937,7 +938,7 @@ func (x *Exec) doCopy(st *State, fr *frame, c *ssa.CallCommon, args []Val, pos t
 	db, do := "(s_base "+d.T+")", "(s_off "+d.T+")"
 	st.assume("(forall ((b Int)) (! (=> (not (= b " + db + ")) (= (select " + h2 + " b) (select " + h + " b))) :pattern ((select " + h2 + " b))))")
 	if !fromStr {
-		st.assume("(forall ((i Int)) (! (=> (and (<= 0 i) (< i " + n + ")) (= (select (select " + h2 + " " + db + ") (+ " + do + " i)) (select (select " + h + " (s_base " + s.T + ")) (+ (s_off " + s.T + ") i)))) :pattern ((select (select " + h2 + " " + db + ") (+ " + do + " i)))))")
+		st.assume("(forall ((k Int)) (! (=> (and (<= " + do + " k) (< k (+ " + do + " " + n + "))) (= (select (select " + h2 + " " + db + ") k) (select (select " + h + " (s_base " + s.T + ")) (+ (s_off " + s.T + ") (- k " + do + "))))) :pattern ((select (select " + h2 + " " + db + ") k))))")
 	}
 	st.assume("(forall ((k Int)) (! (=> (or (< k " + do + ") (>= k (+ " + do + " " + n + "))) (= (select (select " + h2 + " " + db + ") k) (select (select " + h + " " + db + ") k))) :pattern ((select (select " + h2 + " " + db + ") k))))")
 	st.heapTerm(id, sort)
